@@ -28,6 +28,29 @@ package mqttproxy
 // towards the recording pipeline (optionally with a publish limiter and a
 // pipeline that drops some topics).
 //
+// Ordinary options and input shapes (c15GenOptions, each drawn independently;
+// none of them changes an expectation): spec.topicCacheSize 1-5,
+// maxAllowedConnection (one slot per connection of the scenario) and a
+// generous connectionLimit (request rate, byte rate or both, time period) that
+// never have a reason to refuse, clientPublishLimit with bytesRate/timePeriod,
+// pass-through pipelines for Connect/Disconnect/Subscribe/Unsubscribe packets,
+// CONNECT with user name/password, keep-alive of 1-18 h (never expires in a
+// run), MQTT 3.1 (MQIsdp/3), wills (handed to the pipeline by the broker, not
+// judged), client ids with '/', blanks, non-ASCII, yaml-special and 120-byte
+// shapes, topic levels that are empty (leading/trailing/doubled '/'), contain
+// blanks or non-ASCII, topics 3-7 levels deep, SUBSCRIBEs asking for QoS 2,
+// UNSUBSCRIBEs with several filters, client PUBLISH with RETAIN, payloads of
+// 150-6000 bytes (multi-byte remaining length, beyond the socket buffer; only on
+// links that stay much faster than the resend rate), and a loss of the session
+// storage's delete watch (fault store.delete_watch_lost: the broker gets the nil
+// event, re-establishes the watch, lists the stored sessions and closes the
+// connections that have none; connections that are not connected with a stored
+// session at that instant are not judged any more, all others must go on
+// receiving).
+// Two further ranges are behind switches that are OFF (candidate findings,
+// reported): c15EmptyClientIDs (two clients with a zero-length client id) and
+// c15CheckSubackCodes (SUBACK return codes as granted QoS).
+//
 // Cluster view (about a third of the scenarios): the broker's member look-up
 // (memberURL, made for every message that is published as not yet distributed)
 // follows a cyclic plan: no peers, error with an empty or nil list (cluster store
@@ -214,6 +237,19 @@ import (
 // in every tier.
 const c15HangScenarios = false
 
+// c15EmptyClientIDs switches the generation of two different clients that both
+// connect with a zero-length client id and cleanSession=1 (MQTT-3.1.3-6: the
+// server must treat each as a client of its own). OFF: reported as a candidate
+// finding (C15.unexpected-disconnect), waiting for the owner's decision.
+const c15EmptyClientIDs = false
+
+// c15CheckSubackCodes switches the use of the SUBACK return codes: the granted
+// QoS becomes the subscription QoS of the reference model, and a SUBACK that
+// grants more than was requested or has another number of return codes than
+// the SUBSCRIBE had filters is C15.suback-return-code. OFF: reported as a
+// candidate finding, waiting for the owner's decision.
+const c15CheckSubackCodes = false
+
 // ---- scenario ---------------------------------------------------------------
 
 type c15Sub struct {
@@ -238,6 +274,8 @@ type c15COp struct {
 	ID    string   `json:"id,omitempty"`
 	T     string   `json:"t,omitempty"`
 	Q     int      `json:"q,omitempty"`
+	Pad   int      `json:"pad,omitempty"` // pub: bytes appended to the payload
+	Ret   bool     `json:"ret,omitempty"` // pub: RETAIN flag set
 	Subs  []c15Sub `json:"subs,omitempty"`
 }
 
@@ -251,6 +289,12 @@ type c15Client struct {
 	// population dynamics: several entries may carry the same id (successive
 	// connections of one client id; the predecessor of an entry is the nearest
 	// earlier entry with the same id).
+	User     string `json:"user,omitempty"`       // CONNECT user name / password
+	Pass     string `json:"pass,omitempty"`
+	KeepS    int    `json:"keep_s,omitempty"`     // CONNECT keep-alive in seconds (far beyond the run's length)
+	V31      bool   `json:"v31,omitempty"`        // MQTT 3.1 (MQIsdp/3) instead of 3.1.1
+	WillT    string `json:"will_t,omitempty"`     // will topic (QoS WillQ, message "will:<id>")
+	WillQ    int    `json:"will_q,omitempty"`
 	Persist  bool   `json:"persist,omitempty"`    // cleanSession=0 (on a re-used id: the session of the predecessor is inherited in memory or restored from the storage)
 	StartMs  int    `json:"start_ms,omitempty"`   // delay before dialling (after the After condition)
 	After    string `json:"after,omitempty"`      // "" | ready (predecessor still connected: take-over) | gone (predecessor ended)
@@ -267,6 +311,7 @@ type c15Pub struct {
 	Burst int    `json:"burst,omitempty"`
 	B64   bool   `json:"b64,omitempty"`
 	Dist  bool   `json:"dist,omitempty"`
+	Pad   int    `json:"pad,omitempty"`   // bytes appended to the payload
 	After string `json:"after,omitempty"` // client id: issue only once the last connection of that id has finished its initial subscribes
 }
 
@@ -281,6 +326,13 @@ type c15Scenario struct {
 	Limit      int            `json:"limit,omitempty"`
 	DropTopics []string       `json:"drop_topics,omitempty"`
 	DropNth    []int          `json:"drop_nth,omitempty"` // the publish pipeline drops the n-th packet handed to it (1-based)
+	TopicCache int            `json:"topic_cache,omitempty"` // spec.topicCacheSize (0: default)
+	MaxConn    int            `json:"max_conn,omitempty"`    // n>0: spec.maxAllowedConnection = number of connections of the scenario + n-1 (never a reason to refuse)
+	ConnLimit  [3]int         `json:"conn_limit"`            // spec.connectionLimit requestRate, bytesRate, timePeriod (generous: never a reason to refuse)
+	LimitBytes int            `json:"limit_bytes,omitempty"` // spec.clientPublishLimit.bytesRate
+	LimitPer   int            `json:"limit_per,omitempty"`   // spec.clientPublishLimit.timePeriod (0: 1 s with a request rate, default otherwise)
+	Pipes      []string       `json:"pipes,omitempty"`       // packet types with a pass-through pipeline: Connect | Disconnect | Subscribe | Unsubscribe
+	WatchBrk   int            `json:"watch_brk,omitempty"`   // n>0: the storage's delete watch breaks n ms after the initial population is ready and is re-established by the broker
 	Members    []string       `json:"members,omitempty"`  // cyclic plan of the cluster member look-ups: "" no peers | err | errnil | empty | peer | peer-down | peers2
 	PipeYield  bool           `json:"pipe_yield,omitempty"`
 	NetBuf     int            `json:"net_buf,omitempty"`
@@ -291,10 +343,30 @@ type c15Scenario struct {
 func c15Gen(rng *sim.Rand, tier string) interface{} {
 	sc := &c15Scenario{}
 	lv := []string{"a", "b", "c"}
+	if rng.Bool(0.25) {
+		// level names real deployments use: empty levels (leading, trailing and
+		// doubled '/'), blanks, non-ASCII (MQTT 3.1.1 4.7.3: all legal)
+		switch rng.Intn(5) {
+		case 0:
+			lv = []string{"", "a", "b"}
+		case 1:
+			lv = []string{"a", "", "é ü"}
+		case 2:
+			lv = []string{"dev ice", "b", ""}
+		case 3:
+			lv = []string{"温度", "b", "c d"}
+		default:
+			lv = []string{"", "", "a"}
+		}
+	}
+	deep := rng.Bool(0.15)
 	nT := rng.Range(1, 4)
 	var topics []string
 	for i := 0; i < nT; i++ {
 		d := rng.Range(1, 3)
+		if deep {
+			d = rng.Range(3, 7)
+		}
 		var l []string
 		for j := 0; j < d; j++ {
 			l = append(l, lv[rng.Intn(len(lv))])
@@ -689,7 +761,176 @@ func c15Gen(rng *sim.Rand, tier string) interface{} {
 			sc.DelayUs[i] = 1000
 		}
 	}
+	c15GenOptions(rng, sc)
 	return sc
+}
+
+// c15GenOptions draws the options of the spec and of CONNECT that leave the
+// expectations as they are: topic cache size, connection cap and connection
+// limiter that never have a reason to refuse, byte-rate publish limiter,
+// pass-through pipelines for the other packet types, credentials, keep-alive
+// far beyond the run, MQTT 3.1, wills, unusual client ids, bigger payloads.
+func c15GenOptions(rng *sim.Rand, sc *c15Scenario) {
+	if rng.Bool(0.25) {
+		sc.TopicCache = rng.Pick(1, 1, 2, 5)
+	}
+	if rng.Bool(0.2) {
+		sc.WatchBrk = rng.Pick(1, 50, 300, 800)
+	}
+	// SUBSCRIBEs that ask for QoS 2 (what many client libraries do by default;
+	// messages have QoS 0/1, so such a subscription is eligible for all of
+	// them), UNSUBSCRIBEs with several filters, client PUBLISH with RETAIN
+	q2 := rng.Bool(0.2)
+	for i := range sc.Clients {
+		c := &sc.Clients[i]
+		var mine []string
+		for j := range c.Init {
+			for k := range c.Init[j].Subs {
+				mine = append(mine, c.Init[j].Subs[k].F)
+				if q2 && rng.Bool(0.25) {
+					c.Init[j].Subs[k].Q = 2
+				}
+			}
+		}
+		for j := range c.Ops {
+			o := &c.Ops[j]
+			switch o.K {
+			case "sub":
+				for k := range o.Subs {
+					if q2 && rng.Bool(0.25) {
+						o.Subs[k].Q = 2
+					}
+				}
+			case "unsub":
+				if len(mine) > 0 && rng.Bool(0.3) {
+					o.Subs = append(o.Subs, c15Sub{F: mine[rng.Intn(len(mine))]})
+					if rng.Bool(0.3) {
+						o.Subs = append(o.Subs, c15Sub{F: mine[rng.Intn(len(mine))]})
+					}
+				}
+			case "pub", "reuse":
+				o.Ret = rng.Bool(0.1)
+			}
+		}
+	}
+	if rng.Bool(0.3) {
+		sc.MaxConn = rng.Pick(1, 1, 2, 4)
+	}
+	if rng.Bool(0.3) {
+		sc.ConnLimit = [3]int{rng.Pick(0, 50, 1000), rng.Pick(0, 10000, 1000000), rng.Pick(0, 1, 2, 10)}
+		if sc.ConnLimit[0] == 0 && sc.ConnLimit[1] == 0 {
+			sc.ConnLimit[0] = 100
+		}
+	}
+	if sc.Limit > 0 && rng.Bool(0.4) {
+		sc.LimitBytes = rng.Pick(40, 100, 400, 5000)
+		sc.LimitPer = rng.Pick(0, 1, 2, 5)
+		if rng.Bool(0.5) {
+			sc.Limit = 0
+		}
+	}
+	if rng.Bool(0.4) {
+		for _, pt := range []string{"Connect", "Disconnect", "Subscribe", "Unsubscribe"} {
+			if rng.Bool(0.6) {
+				sc.Pipes = append(sc.Pipes, pt)
+			}
+		}
+	}
+	// only on links that stay much faster than the retransmission rate (every
+	// segment or buffer-full of a payload takes one link delay)
+	small := (sc.Seg[0] == 0 || sc.Seg[0] == 16) && (sc.Seg[1] == 0 || sc.Seg[1] == 16) && sc.DelayUs[0] <= 1000 && sc.DelayUs[1] <= 1000
+	if small && rng.Bool(0.3) {
+		// payloads beyond 127 bytes (multi-byte remaining length) and beyond the
+		// socket buffer
+		for i := range sc.Publishers {
+			for j := range sc.Publishers[i].Pubs {
+				if p := &sc.Publishers[i].Pubs[j]; p.Burst <= 5 && rng.Bool(0.4) {
+					p.Pad = rng.Pick(150, 150, 1500, 6000)
+					if sc.Seg[0] == 16 || sc.Seg[1] == 16 || (sc.NetBuf > 0 && sc.NetBuf <= 512) {
+						// (a payload costs one scheduling step per segment or buffer-full and subscriber)
+						p.Pad = rng.Pick(150, 700)
+					}
+				}
+			}
+		}
+		for i := range sc.Clients {
+			for j := range sc.Clients[i].Ops {
+				if o := &sc.Clients[i].Ops[j]; (o.K == "pub" || o.K == "reuse") && rng.Bool(0.4) {
+					o.Pad = rng.Pick(150, 700, 3000)
+					if sc.NetBuf > 0 && sc.NetBuf <= 512 {
+						o.Pad = rng.Pick(150, 700)
+					}
+				}
+			}
+		}
+	}
+	ids := []string{}
+	seen := map[string]bool{}
+	for i := range sc.Clients {
+		c := &sc.Clients[i]
+		if !seen[c.ID] {
+			seen[c.ID] = true
+			ids = append(ids, c.ID)
+		}
+		if rng.Bool(0.3) {
+			c.User = rng.PickStr("u", "user@example.org", "ü ser")
+			if rng.Bool(0.7) {
+				c.Pass = rng.PickStr("p", "pässword with blanks")
+			}
+		}
+		if rng.Bool(0.3) {
+			c.KeepS = rng.Pick(3600, 65535)
+		}
+		c.V31 = rng.Bool(0.15)
+		if rng.Bool(0.2) && len(sc.Publishers) > 0 && len(sc.Publishers[0].Pubs) > 0 {
+			c.WillT = sc.Publishers[0].Pubs[rng.Intn(len(sc.Publishers[0].Pubs))].T
+			c.WillQ = rng.Intn(2)
+		}
+	}
+	if rng.Bool(0.25) {
+		shapes := []string{"a/b", "x y", "dev:1", "üñí-✓", "123", "null", "~", "#", "+/x", "%s%d", strings.Repeat("L", 120), "k0 ", "K0", "true", "- x", "{a: b}", "'q'", "\"dq\"", "/mqtt/sessionMgr/clientID/k1", "k1/"}
+		perm := rng.Perm(len(shapes))
+		ren := map[string]string{}
+		for i, id := range ids {
+			if rng.Bool(0.6) && i < len(perm) && !seen[shapes[perm[i]]] {
+				ren[id] = shapes[perm[i]]
+			}
+		}
+		c15Rename(sc, ren)
+	}
+	if c15EmptyClientIDs && rng.Bool(0.15) {
+		// two different clients that both leave the client id empty
+		ren := map[string]string{}
+		for _, id := range ids {
+			ok := true
+			for i := range sc.Clients {
+				if sc.Clients[i].ID == id && sc.Clients[i].Persist {
+					ok = false
+				}
+			}
+			if ok && len(ren) < 2 {
+				ren[id] = fmt.Sprintf("<empty%d>", len(ren))
+			}
+		}
+		if len(ren) == 2 {
+			c15Rename(sc, ren)
+		}
+	}
+}
+
+func c15Rename(sc *c15Scenario, ren map[string]string) {
+	for i := range sc.Clients {
+		if n, ok := ren[sc.Clients[i].ID]; ok {
+			sc.Clients[i].ID = n
+		}
+	}
+	for i := range sc.Publishers {
+		for j := range sc.Publishers[i].Pubs {
+			if n, ok := ren[sc.Publishers[i].Pubs[j].After]; ok {
+				sc.Publishers[i].Pubs[j].After = n
+			}
+		}
+	}
 }
 
 // c15Shrink proposes scenarios with one scalar knob reset to its plainest value.
@@ -812,9 +1053,6 @@ func c15ValidFilter(f string) bool {
 	}
 	l := strings.Split(f, "/")
 	for i, x := range l {
-		if x == "" {
-			return false
-		}
 		if strings.Contains(x, "#") && (x != "#" || i != len(l)-1) {
 			return false
 		}
@@ -933,6 +1171,7 @@ type c15Cl struct {
 	spec      *c15Client
 	idx       int
 	name      string  // unique: id.index
+	wid       string  // client id on the wire ("<empty...>" stands for the zero-length id)
 	pred      *c15Cl  // nearest earlier connection with the same client id
 	succ      []*c15Cl
 	clean     bool
@@ -999,6 +1238,10 @@ type c15Get struct {
 }
 
 type c15Store struct {
+	stop    chan struct{} // closed at the end of the run
+	brk     chan struct{} // closing it breaks the current delete watch (the broker sees a closed watch and re-establishes it)
+	nWatch  int
+	listing bool // the broker has listed the stored sessions after the last break
 	in   storage
 	gets map[string][]c15Get // per client id: what the broker was handed when it looked a session up
 	last map[string]string   // per client id: the stored session as of now
@@ -1033,6 +1276,7 @@ func (s *c15Store) get(key string) (*string, error) {
 }
 
 func (s *c15Store) getPrefix(prefix string, keysOnly bool) (map[string]string, error) {
+	s.listing = true
 	return s.in.getPrefix(prefix, keysOnly)
 }
 
@@ -1048,7 +1292,37 @@ func (s *c15Store) delete(key string) error {
 }
 
 func (s *c15Store) watchDelete(prefix string) (<-chan map[string]*string, func(), error) {
-	return s.in.watchDelete(prefix)
+	in, cancel, err := s.in.watchDelete(prefix)
+	if err != nil || in == nil || s.stop == nil {
+		return in, cancel, err
+	}
+	s.nWatch++
+	out := make(chan map[string]*string)
+	brk := make(chan struct{})
+	s.brk = brk
+	go func() {
+		for {
+			var m map[string]*string
+			select {
+			case <-s.stop:
+				return
+			case <-brk:
+				// what etcd clients see when the watch is lost: a nil event
+				select {
+				case out <- nil:
+				case <-s.stop:
+				}
+				return
+			case m = <-in:
+			}
+			select {
+			case out <- m:
+			case <-s.stop:
+				return
+			}
+		}
+	}()
+	return out, cancel, err
 }
 
 func c15SameSubs(a, b map[string]int) bool {
@@ -1190,7 +1464,25 @@ func (h *c15H) GetHandler(name string) (context.Handler, bool) {
 	if name == "c15-publish" {
 		return h, true
 	}
+	if name == "c15-any" {
+		return c15Any{h}, true
+	}
 	return nil, false
+}
+
+// c15Any is the pass-through pipeline for CONNECT, DISCONNECT, SUBSCRIBE and
+// UNSUBSCRIBE packets: it lets everything pass.
+type c15Any struct{ h *c15H }
+
+func (a c15Any) Handle(ctx *context.Context) string {
+	if req, ok := ctx.GetInputRequest().(*mqttprot.Request); ok {
+		a.h.r.Probe(fmt.Sprintf("mqtt.pass_through_pipeline.%s", map[mqttprot.PacketType]string{mqttprot.ConnectType: "connect", mqttprot.DisconnectType: "disconnect",
+			mqttprot.SubscribeType: "subscribe", mqttprot.UnsubscribeType: "unsubscribe", mqttprot.PublishType: "publish"}[req.PacketType()]))
+	}
+	if a.h.sc.PipeYield && !a.h.stopping {
+		a.h.r.Yield("c15.anypipe")
+	}
+	return ""
 }
 
 // Handle is the recording backend pipeline.
@@ -1208,7 +1500,7 @@ func (h *c15H) Handle(ctx *context.Context) string {
 	}
 	h.pipeSeen = append(h.pipeSeen, rec)
 	for _, cl := range h.clients {
-		if cl.spec.ID == rec.cid {
+		if cl.wid == rec.cid || cl.wid == "" { // (a zero-length id is replaced by one the broker chooses; payloads carry the connection's name)
 			for _, cp := range cl.pubList {
 				if cp.payload == rec.payload {
 					cp.seen++
@@ -1220,7 +1512,16 @@ func (h *c15H) Handle(ctx *context.Context) string {
 		}
 	}
 	h.progress++
-	h.r.Eventf("pipeline %s %s q%d id%d dup=%v drop=%v %q", rec.cid, rec.topic, rec.qos, rec.mid, rec.dup, rec.dropped, rec.payload)
+	if strings.HasPrefix(rec.payload, "will:") {
+		h.r.Probe("mqtt.will_handed_to_pipeline")
+	}
+	shown := "<assigned by the broker>"
+	for _, cl := range h.clients {
+		if cl.wid == rec.cid {
+			shown = rec.cid
+		}
+	}
+	h.r.Eventf("pipeline %s %s q%d id%d dup=%v drop=%v %q", shown, rec.topic, rec.qos, rec.mid, rec.dup, rec.dropped, c15Short(rec.payload))
 	if rec.dropped {
 		if resp, ok := ctx.GetOutputResponse().(*mqttprot.Response); ok {
 			resp.SetDrop()
@@ -1311,7 +1612,7 @@ func (h *c15H) inheritSession(cl *c15Cl) {
 	if cl.clean || cl.pred == nil {
 		return
 	}
-	all := h.store.gets[cl.spec.ID]
+	all := h.store.gets[cl.wid]
 	if cl.gets0 > len(all) {
 		cl.gets0 = len(all)
 	}
@@ -1482,7 +1783,7 @@ func (h *c15H) runClient(cl *c15Cl) {
 			r.Probe("mqtt.reconnect_after_end")
 		}
 	}
-	cl.gets0 = len(h.store.gets[cl.spec.ID])
+	cl.gets0 = len(h.store.gets[cl.wid])
 	conn, err := h.net.Dial(gocontext.Background(), "tcp", "10.2.0.1:1883")
 	if err != nil {
 		fail("dial: %v", err)
@@ -1491,9 +1792,29 @@ func (h *c15H) runClient(cl *c15Cl) {
 	cl.conn = conn
 	cp := packets.NewControlPacket(packets.Connect).(*packets.ConnectPacket)
 	cp.ProtocolName, cp.ProtocolVersion = "MQTT", 4
-	cp.ClientIdentifier = cl.spec.ID
+	if cl.spec.V31 {
+		cp.ProtocolName, cp.ProtocolVersion = "MQIsdp", 3
+		r.Probe("mqtt.connect_mqtt31")
+	}
+	cp.ClientIdentifier = cl.wid
 	cp.CleanSession = cl.clean
 	cp.Keepalive = 0
+	if cl.spec.KeepS >= 3600 {
+		// far beyond the run's length including scheduler stalls (20 x 60 s)
+		cp.Keepalive = uint16(cl.spec.KeepS)
+		r.Probe("mqtt.connect_with_keepalive")
+	}
+	if cl.spec.User != "" {
+		cp.UsernameFlag, cp.Username = true, cl.spec.User
+		if cl.spec.Pass != "" {
+			cp.PasswordFlag, cp.Password = true, []byte(cl.spec.Pass)
+		}
+		r.Probe("mqtt.connect_with_credentials")
+	}
+	if c15ValidTopic(cl.spec.WillT) && (cl.spec.WillQ == 0 || cl.spec.WillQ == 1) {
+		cp.WillFlag, cp.WillTopic, cp.WillQos, cp.WillMessage = true, cl.spec.WillT, byte(cl.spec.WillQ), []byte("will:"+cl.name)
+		r.Probe("mqtt.connect_with_will")
+	}
 	if err := cp.Write(conn); err != nil {
 		fail("write CONNECT: %v", err)
 		return
@@ -1554,10 +1875,25 @@ func (h *c15H) runClient(cl *c15Cl) {
 			h.tick++
 			if cl.pend != nil && !cl.pendUnsub && p.MessageID == cl.pendMid {
 				cl.pkts = append(cl.pkts, c15Pkt{cl.pendTick, h.tick})
-				for _, s := range cl.pend {
+				for i, s := range cl.pend {
 					cl.confirmed[s.F] = s.Q
 					delete(cl.flux, s.F)
 					delete(cl.inhF, s.F)
+					if !c15CheckSubackCodes {
+						continue
+					}
+					// the SUBACK tells the client which QoS its subscription has
+					switch {
+					case len(p.ReturnCodes) != len(cl.pend):
+						h.violate("C15.suback-return-code", "client %s: SUBACK %d carries %d return codes for a SUBSCRIBE with %d filters %s", cl.name, p.MessageID, len(p.ReturnCodes), len(cl.pend), c15SubList(cl.pend))
+					case p.ReturnCodes[i] == 0x80:
+						cl.flux[s.F] = true
+						r.Probe("mqtt.suback_failure_code")
+					case int(p.ReturnCodes[i]) > s.Q:
+						h.violate("C15.suback-return-code", "client %s: SUBACK %d grants QoS %d for filter %q which was requested with QoS %d (return codes %v for %s): the client is told it holds a subscription it does not have", cl.name, p.MessageID, p.ReturnCodes[i], s.F, s.Q, p.ReturnCodes, c15SubList(cl.pend))
+					default:
+						cl.confirmed[s.F] = int(p.ReturnCodes[i])
+					}
 				}
 				cl.pend = nil
 				h.subChanged(cl)
@@ -1767,7 +2103,7 @@ func (h *c15H) onPublish(cl *c15Cl, p *packets.PublishPacket) {
 // ownedBySession tells whether the session currently registered for the
 // connection's client id has this message pending under this packet id.
 func (h *c15H) ownedBySession(cl *c15Cl, p *packets.PublishPacket) bool {
-	v, ok := h.broker.sessMgr.sessionMap.Load(cl.spec.ID)
+	v, ok := h.broker.sessMgr.sessionMap.Load(cl.wid)
 	if !ok {
 		return false
 	}
@@ -1880,7 +2216,7 @@ func (h *c15H) runWriter(cl *c15Cl) {
 func (h *c15H) subscribe(cl *c15Cl, subs []c15Sub, unsub bool) bool {
 	var ok []c15Sub
 	for _, s := range subs {
-		if c15ValidFilter(s.F) && (s.Q == 0 || s.Q == 1) {
+		if c15ValidFilter(s.F) && (s.Q == 0 || s.Q == 1 || (s.Q == 2 && !unsub)) {
 			ok = append(ok, s)
 		}
 	}
@@ -1958,7 +2294,7 @@ func (h *c15H) endConn(cl *c15Cl) {
 		// the (asynchronous) session store a moment to catch up with what was
 		// acknowledged; what is still missing then is the known store lag of C16.
 		for i := 0; i < 40 && !h.stopping && !cl.dead; i++ {
-			if g, ok := c15DecodeSession(h.store.last[sp.ID]); ok && c15SameSubs(g.topics, cl.confirmed) {
+			if g, ok := c15DecodeSession(h.store.last[cl.wid]); ok && c15SameSubs(g.topics, cl.confirmed) {
 				break
 			}
 			if i == 0 {
@@ -2089,7 +2425,11 @@ func (h *c15H) runScript(cl *c15Cl) {
 			}
 			pp.Qos = byte(op.Q)
 			pp.TopicName = op.T
-			payload := fmt.Sprintf("cp:%s:%s:%d:%d", cl.name, op.ID, pp.MessageID, len(cl.pubList))
+			if op.Ret {
+				pp.Retain = true
+				r.Probe("mqtt.client_publish_with_retain")
+			}
+			payload := fmt.Sprintf("cp:%s:%s:%d:%d", cl.name, op.ID, pp.MessageID, len(cl.pubList)) + c15Pad(op.Pad)
 			pp.Payload = []byte(payload)
 			h.tick++
 			cp := &c15CPub{id: op.ID, topic: op.T, q: op.Q, mid: pp.MessageID, payload: payload, tick: h.tick, queued: 1}
@@ -2105,7 +2445,10 @@ func (h *c15H) runScript(cl *c15Cl) {
 // ---- publisher tasks ------------------------------------------------------------
 
 func (h *c15H) issue(p *c15Pub, k int) {
-	key := fmt.Sprintf("m:%s#%d", p.ID, k)
+	key := fmt.Sprintf("m:%s#%d", p.ID, k) + c15Pad(p.Pad)
+	if p.Pad > 0 {
+		h.r.Probe("mqtt.http_publish_padded_payload")
+	}
 	payload := []byte(key)
 	if p.B64 {
 		payload = append([]byte{0xff, 0x00, 0x80, '\n'}, payload...)
@@ -2210,10 +2553,29 @@ func (h *c15H) runPublisher(pb *c15Publisher) {
 // ---- oracle at quiescence -------------------------------------------------------
 
 func c15Short(key string) string {
+	if i := strings.Index(key, "|pad"); i >= 0 {
+		key = fmt.Sprintf("%s|+%dB", key[:i], len(key)-i)
+	}
 	if i := strings.Index(key, "m:"); i > 0 {
 		return "b64:" + key[i:]
 	}
 	return key
+}
+
+// c15Pad returns n bytes of padding.
+func c15Pad(n int) string {
+	if n <= 0 {
+		return ""
+	}
+	if n > 20000 {
+		n = 20000
+	}
+	var b strings.Builder
+	b.WriteString("|pad")
+	for i := 0; b.Len() < n; i++ {
+		fmt.Fprintf(&b, "%d.", i)
+	}
+	return b.String()[:max(n, 4)]
 }
 
 func c15Subs(m map[string]int) string {
@@ -2255,6 +2617,17 @@ func (h *c15H) ackedByLineage(cl *c15Cl, rx *c15Rx) bool {
 	return false
 }
 
+// c15Wire maps a scenario client id to the id used on the wire.
+func c15Wire(id string) string {
+	if strings.HasPrefix(id, "<empty") {
+		return ""
+	}
+	return id
+}
+
+// limited tells whether a client publish limiter is configured.
+func (h *c15H) limited() bool { return h.sc.Limit > 0 || h.sc.LimitBytes > 0 }
+
 // satisfied tells whether every obligation of the run is already met.
 func (h *c15H) satisfied() bool {
 	for _, cl := range h.clients {
@@ -2276,7 +2649,7 @@ func (h *c15H) satisfied() bool {
 			}
 		}
 		for _, cp := range cl.pubList {
-			if cp.q == 1 && (cp.acks < cp.seen-cp.seenDrop || (h.sc.Limit == 0 && cp.seen < cp.queued)) {
+			if cp.q == 1 && (cp.acks < cp.seen-cp.seenDrop || (!h.limited() && cp.seen < cp.queued)) {
 				return false
 			}
 		}
@@ -2476,7 +2849,7 @@ func (h *c15H) evaluate() {
 		for _, cp := range cl.pubList {
 			seen, seenDrop := 0, 0
 			for _, rec := range h.pipeSeen {
-				if rec.cid == cl.spec.ID && rec.payload == cp.payload {
+				if (rec.cid == cl.wid || cl.wid == "") && rec.payload == cp.payload {
 					seen++
 					if rec.dropped {
 						seenDrop++
@@ -2501,7 +2874,7 @@ func (h *c15H) evaluate() {
 				continue
 			}
 			if seen < cp.sent {
-				if h.sc.Limit > 0 {
+				if h.limited() {
 					r.Probe("mqtt.client_publish_refused_by_limiter")
 					if seen > 0 && cp.sent > 1 {
 						r.Probe("mqtt.client_publish_retry_passed_after_limiter_drop")
@@ -2557,7 +2930,7 @@ func c15Exec(r *sim.Run, sci interface{}) {
 		if c.ID == "" || len(h.clients) >= 10 {
 			continue
 		}
-		cl := &c15Cl{spec: c, idx: len(h.clients), name: c.ID, confirmed: map[string]int{}, subAckCh: make(chan struct{}, 1),
+		cl := &c15Cl{spec: c, idx: len(h.clients), name: c.ID, wid: c15Wire(c.ID), confirmed: map[string]int{}, subAckCh: make(chan struct{}, 1),
 			hungCh: make(chan struct{}), wake: make(chan struct{}, 1), rx: map[string]*c15Rx{}, byMid: map[uint16]string{}, pubs: map[uint16]*c15CPub{},
 			readyCh: make(chan struct{}), deadCh: make(chan struct{}), supCh: make(chan struct{}), flux: map[string]bool{}, inhF: map[string]bool{}}
 		nth[c.ID]++
@@ -2608,10 +2981,50 @@ func c15Exec(r *sim.Run, sci interface{}) {
 
 	spec := &Spec{Name: "c15", EGName: "c15", Port: 1883,
 		Rules: []*Rule{{When: &When{PacketType: Publish}, Pipeline: "c15-publish"}}}
-	if sc.Limit > 0 {
-		spec.ClientPublishLimit = &RateLimit{RequestRate: sc.Limit, TimePeriod: 1}
+	if h.limited() {
+		spec.ClientPublishLimit = &RateLimit{RequestRate: sc.Limit, BytesRate: sc.LimitBytes, TimePeriod: sc.LimitPer}
+		if sc.Limit > 0 && sc.LimitPer == 0 {
+			spec.ClientPublishLimit.TimePeriod = 1
+		}
+		if sc.LimitBytes > 0 {
+			r.Probe("mqtt.publish_limiter_with_bytes_rate")
+		}
 	}
-	h.store = &c15Store{in: newStorage(nil), gets: map[string][]c15Get{}, last: map[string]string{}}
+	for _, pt := range sc.Pipes {
+		switch PacketType(pt) {
+		case Connect, Disconnect, Subscribe, Unsubscribe:
+			dup := false
+			for _, ru := range spec.Rules {
+				dup = dup || ru.When.PacketType == PacketType(pt)
+			}
+			if !dup {
+				spec.Rules = append(spec.Rules, &Rule{When: &When{PacketType: PacketType(pt)}, Pipeline: "c15-any"})
+			}
+		}
+	}
+	if sc.TopicCache > 0 {
+		spec.TopicCacheSize = sc.TopicCache
+		r.Probe("mqtt.small_topic_cache")
+	}
+	if sc.MaxConn > 0 {
+		// one slot per connection of the scenario: a connection that takes a
+		// client id over is counted in addition to the one it replaces by the
+		// broker's early check (checkConnectPermission; caps are C17's subject)
+		spec.MaxAllowedConnection = len(h.clients) + sc.MaxConn - 1
+		r.Probe("mqtt.max_allowed_connection_set")
+	}
+	if sc.ConnLimit[0] >= 50 || sc.ConnLimit[1] >= 10000 {
+		cl := &RateLimit{TimePeriod: sc.ConnLimit[2]}
+		if sc.ConnLimit[0] >= 50 {
+			cl.RequestRate = sc.ConnLimit[0]
+		}
+		if sc.ConnLimit[1] >= 10000 {
+			cl.BytesRate = sc.ConnLimit[1]
+		}
+		spec.ConnectionLimit = cl
+		r.Probe("mqtt.connection_limit_set")
+	}
+	h.store = &c15Store{stop: h.stopCh, in: newStorage(nil), gets: map[string][]c15Get{}, last: map[string]string{}}
 	h.dropNth = map[int]bool{}
 	for _, n := range sc.DropNth {
 		h.dropNth[n] = true
@@ -2639,6 +3052,42 @@ func c15Exec(r *sim.Run, sci interface{}) {
 		pb := &sc.Publishers[i]
 		h.pending++
 		r.Go(fmt.Sprintf("p.%d", i), func() { h.runPublisher(pb) })
+	}
+	if sc.WatchBrk > 0 {
+		h.pending++
+		r.Go("wb", func() {
+			defer func() { h.pending--; h.progress++ }()
+			h.pending--
+			select {
+			case <-h.readyCh:
+			case <-h.stopCh:
+			}
+			h.pending++
+			r.Sleep(time.Duration(sc.WatchBrk)*time.Millisecond + 157*time.Microsecond)
+			if h.stopping || h.store.brk == nil {
+				return
+			}
+			// the broker lists the stored sessions and closes every connection
+			// that has none: connections whose session has not reached the
+			// (asynchronous) store by now, or that connect while this is going
+			// on, are not judged any more (store lag, C16)
+			for _, cl := range h.clients {
+				if _, stored := h.store.last[cl.wid]; !(cl.connected && stored) && !cl.dead {
+					h.unjudge(cl, "not connected with a stored session when the session watch was re-established")
+					cl.lostOK = true
+				}
+			}
+			r.Fault("store.delete_watch_lost")
+			r.Eventf("session delete watch breaks")
+			h.store.listing = false
+			close(h.store.brk)
+			for i := 0; i < 50 && !h.stopping && !h.store.listing; i++ {
+				r.Sleep(time.Millisecond)
+			}
+			if h.store.listing {
+				r.Probe("mqtt.session_watch_reestablished")
+			}
+		})
 	}
 
 	// wait for quiescence
@@ -2768,7 +3217,7 @@ func TestVerifC15(t *testing.T) {
 		Shrink:   c15Shrink,
 		MaxSteps: 600000,
 		DeadlockClass: "C15.deadlock",
-		Rule: "scenario = 2-10 raw MQTT connections (in ~55% of the scenarios with unsubscribes, disconnects, late joiners, reconnects and take-overs of client ids - clean or with cleanSession=0: session restored from the storage after a complete teardown or inherited in memory -, prefix-nested filters; in ~30% a recipe: persistent QoS1 subscriber ends, is torn down, returns with cleanSession=0 and only then gets QoS1 publishes whose first transmission is lost by withheld PUBACKs or a burst beyond its outbound queue) with 1-6 overlapping filters of QoS 0/1 over 1-4 topics (1-2 SUBSCRIBE packets, late re-subscriptions), per-client PUBACK behaviours (prompt, omit k, delay, duplicate, +PINGREQ), optional read stall, client PUBLISH ops; 1-2 publishers with 1-8 HTTP publishes each (QoS 0/1, bursts up to 120), limiter/pipeline-drop knobs (drop by topic or the n-th packet; in ~30% client QoS1 PUBLISH sequences with DUP=1 retries of the unacknowledged publish and re-use of an acknowledged packet id), in ~35% a cyclic plan for the cluster member look-up (error, nil+error, empty, reachable/unreachable peers) with most messages published as not yet distributed, simnet buffer/segment/latency plan; " +
+		Rule: "scenario = 2-10 raw MQTT connections (in ~55% of the scenarios with unsubscribes, disconnects, late joiners, reconnects and take-overs of client ids - clean or with cleanSession=0: session restored from the storage after a complete teardown or inherited in memory -, prefix-nested filters; in ~30% a recipe: persistent QoS1 subscriber ends, is torn down, returns with cleanSession=0 and only then gets QoS1 publishes whose first transmission is lost by withheld PUBACKs or a burst beyond its outbound queue) with 1-6 overlapping filters of QoS 0/1 over 1-4 topics (1-2 SUBSCRIBE packets, late re-subscriptions), per-client PUBACK behaviours (prompt, omit k, delay, duplicate, +PINGREQ), optional read stall, client PUBLISH ops; 1-2 publishers with 1-8 HTTP publishes each (QoS 0/1, bursts up to 120), limiter/pipeline-drop knobs (drop by topic or the n-th packet; in ~30% client QoS1 PUBLISH sequences with DUP=1 retries of the unacknowledged publish and re-use of an acknowledged packet id), in ~35% a cyclic plan for the cluster member look-up (error, nil+error, empty, reachable/unreachable peers) with most messages published as not yet distributed, simnet buffer/segment/latency plan; independently drawn ordinary options (topic cache size, connection cap and limiter, byte-rate publish limiter, pass-through pipelines, credentials, keep-alive, MQTT 3.1, wills, unusual client ids and topic levels, QoS2 subscription requests, payloads up to 6000 bytes, loss and re-establishment of the session delete watch); " +
 			"non-trivial = some message had >=2 eligible subscribers and (a QoS1 message had both eligible and lower-QoS subscribers, or a retransmission was observed); distinct = distinct (final subscriptions, per-client sequence of received messages with copy counts) signatures",
 		Real: []string{"pkg/object/mqttproxy: newBroker, Broker.run/handleConn/connectionValidation/setSession, sendMsgToClient, httpTopicsPublishHandler, Client.readLoop/writeLoop/processPacket (SUBSCRIBE, PUBLISH, PUBACK, PINGREQ), pipelineWrapper, Limiter, SessionManager, Session.publish/puback/doResend/backgroundResendPending (200 ms ticker on the virtual clock), TopicManager",
 			"pkg/util/ratelimiter (publish limiter)", "github.com/eclipse/paho.mqtt.golang/packets codec on both sides"},
@@ -2784,6 +3233,9 @@ func TestVerifC15(t *testing.T) {
 			"with a publish limiter, 'passed the limiter' is read off the recording pipeline; PUBACK for a PUBLISH the pipeline dropped: both accepted",
 			"every transmission of a client QoS1 PUBLISH (first one and DUP=1 retries with the same id) is a PUBLISH of its own: without limiter each must reach the pipeline; PUBACKs >= hand-overs the pipeline did not drop; a PUBACK for a message never handed over is a violation; more PUBACKs than hand-overs for a message that was handed over at least once is accepted (probe)",
 			"local delivery must not depend on the cluster member look-up or on the peers; the HTTP status stays 200 when the look-up fails",
+			"options that must not change anything are drawn independently: topicCacheSize 1-5, maxAllowedConnection = number of connections of the scenario + 0..3, connectionLimit >= 50 requests / 10000 bytes per period, pass-through pipelines for the other packet types, credentials, keep-alive >= 1 h, MQTT 3.1, wills (not judged), unusual client ids, empty/blank/non-ASCII topic levels (all legal by MQTT 3.1.1 4.7.3), QoS 2 subscription requests (eligible for QoS 0 and 1 messages), RETAIN on client PUBLISH (not judged), payloads up to 6000 bytes",
+			"loss of the session delete watch: connections that are connected and whose session is in the storage at that instant must stay connected and go on receiving; the others (store lag, handshake racing the re-listing: C16) are not judged any more",
+			fmt.Sprintf("switched off pending the owner's decision: c15EmptyClientIDs=%v (two clients with zero-length client ids are one client for the broker), c15CheckSubackCodes=%v (SUBACK always grants QoS 1)", c15EmptyClientIDs, c15CheckSubackCodes),
 			"not generated: QoS2, invalid filters, '$' topics, wills, retained, keep-alive expiry (keep-alive 0), storage latency/errors (C16), SUBSCRIBE/UNSUBSCRIBE by a connection that is going to be superseded",
 			"cleanSession=0 on a re-used client id: from its CONNACK on the connection holds the subscriptions of the stored session the broker was answered with during the handshake (restored from storage) or the acknowledged subscriptions of the predecessor (no storage look-up: inherited in memory); filters on which a restored session differs from the predecessor's acknowledged state (known C16 store-lag findings) are in flux until the connection (un)subscribes them itself: both outcomes accepted; more than one look-up during a handshake: connection not judged",
 			"redelivery until PUBACK is required on restored and inherited sessions like on any other; a PUBACK for the same message and packet id sent on a superseded connection that shares the session object counts as the client's acknowledgement",
